@@ -581,6 +581,23 @@ func constInt(v ssa.Value) (int64, bool) {
 
 // isErrorDiagPtr: v is a pointer to a freshly built Diagnostic with Severity DiagError.
 func isErrorDiagPtr(v ssa.Value) bool {
+	if call, isCall := v.(*ssa.Call); isCall {
+		// a helper or closure whose every return is a freshly built error diagnostic
+		cal := staticCallee(&call.Call)
+		if cal == nil || !inModule(cal) || len(cal.Blocks) == 0 || cal.Signature.Results().Len() != 1 {
+			return false
+		}
+		n := 0
+		for _, b := range cal.Blocks {
+			if ret, ok := b.Instrs[len(b.Instrs)-1].(*ssa.Return); ok {
+				n++
+				if _, again := ret.Results[0].(*ssa.Call); again || !isErrorDiagPtr(ret.Results[0]) {
+					return false
+				}
+			}
+		}
+		return n > 0
+	}
 	al, ok := v.(*ssa.Alloc)
 	if !ok || !isNamed(al.Type(), modPath, "Diagnostic") {
 		return false
